@@ -25,6 +25,9 @@ RULE = ("full product functional x representation, with leaf-derivation {leaf, d
         "can hold non-Parameters), a seeded requires-grad mask over the three leaves (at least one True), dimension d in {2,3,4,7} (7 > 5 makes the implicit backward use a Krylov solver through the Jacobian operator); "
         "non-trivial = the representation differs from 'pure', both runs returned, at least one first-order and one second-order "
         "leaf gradient was non-zero and compared")
+RULE += ('; group r6 (vf/c09_r6.py): solve_ivp with a tuple / list state (two components of different shapes) for 17 representations x 5 methods, '
+         'initial state requiring grad or not; an nn.Module OBJECT as the callable (directly or through make_sibling) with no hook / weight-norm style '
+         'forward pre-hook / output-transforming forward hook / both, 11 functionals, optional in-place step on g before the call')
 RULE += ('; group history (vf/c09_extra.py): sibling made once and reused after requires_grad flags changed (3 stages), failing call followed by a normal one, holders rebound between two calls with one backward through both')
 MIN_NONTRIVIAL = {"quick": 900, "thorough": 5000}
 ASSUMPTIONS = ["contractive / convex problem families (|s|<=0.5, |W|~0.5) so every iterative method converges to 1e-11",
@@ -32,8 +35,8 @@ ASSUMPTIONS = ["contractive / convex problem families (|s|<=0.5, |W|~0.5) so eve
                "tolerances: 1e-8 relative to the gradient scale for direct functionals, 1e-6 for iterative ones "
                "(their stopping tolerance is 1e-11)"]
 BUDGET = {"quick": {"worker_timeout": 900, "case_timeout": 180}, "thorough": {"worker_timeout": 3300, "case_timeout": 300}}
-REQUIRED_COUNTERS = {"quick": {"sibling_rebind_compared": 15, "repeat_backward_compared": 60, "extra_shared_object_compared": 20, "late_backward_compared": 30, "history_grad2_compared": 150, "abort_reuse_compared": 40, "refreeze_stages": 100, "second_order_compared": 1500, "objparams_substitutions": 5000},
-                     "thorough": {"sibling_rebind_compared": 150, "repeat_backward_compared": 240, "extra_shared_object_compared": 200, "late_backward_compared": 300, "history_grad2_compared": 1500, "abort_reuse_compared": 400, "refreeze_stages": 1000, "second_order_compared": 9000, "objparams_substitutions": 30000}}
+REQUIRED_COUNTERS = {"quick": {"ivp_seqstate_compared": 25, "ivp_seqstate_y0_requires_grad": 5, "module_object_compared": 40, "module_object_hook_runs": 500, "sibling_rebind_compared": 15, "repeat_backward_compared": 60, "extra_shared_object_compared": 20, "late_backward_compared": 30, "history_grad2_compared": 150, "abort_reuse_compared": 40, "refreeze_stages": 100, "second_order_compared": 1500, "objparams_substitutions": 5000},
+                     "thorough": {"ivp_seqstate_compared": 300, "ivp_seqstate_y0_requires_grad": 80, "module_object_compared": 200, "module_object_hook_runs": 3000, "sibling_rebind_compared": 150, "repeat_backward_compared": 240, "extra_shared_object_compared": 200, "late_backward_compared": 300, "history_grad2_compared": 1500, "abort_reuse_compared": 400, "refreeze_stages": 1000, "second_order_compared": 9000, "objparams_substitutions": 30000}}
 
 FNAMES = list(funcs.FUNCTIONALS) + ["mcquad:mh"]
 
@@ -79,6 +82,9 @@ def cases(seed, tier):
     # histories: a sibling made once and reused after requires_grad flags changed; a failed call followed by a normal one
     from vf import c09_extra
     out.extend(c09_extra.cases(seed, tier))
+    # round 6: solve_ivp with tuple / list states for every representation; an nn.Module OBJECT (with forward pre-hooks / hooks) as the callable
+    from vf import c09_r6
+    out.extend(c09_r6.cases(seed, tier))
     # mcquad takes TWO functions: f and log p as methods of one object sharing a tensor (monitor of vf/c16_extra.py: explicit weighted mean on
     # the same leaves)
     from vf import c16_extra
@@ -408,6 +414,9 @@ def run_case(desc):
     if desc.get("group") == "history":
         from vf import c09_extra
         return c09_extra.run_case(desc)
+    if desc.get("group") == "r6":
+        from vf import c09_r6
+        return c09_r6.run_case(desc)
     if desc.get("group") == "mc_shared":
         from vf import c16_extra
         return c16_extra.run_shared(desc)
